@@ -226,7 +226,6 @@ func e5Case(hseed uint64, pos int, kind, speed string, race bool) Case {
 	}}
 }
 
-
 // e5RelistRetryCase: the one place where relists and reconnects meet.  A watch
 // stream ends while a relist is in flight, so the relist completes (and resets
 // the watcher) while the reconnect delay is pending.  Much later, with the next
